@@ -84,6 +84,7 @@ static inline void myth_sleep_queue_destroy(myth_sleep_queue_t * q) {
 static inline long myth_sleep_queue_enq(myth_sleep_queue_t * q, 
 					myth_sleep_queue_item_t t) {
   t->next = 0;
+  MYTH_VERIF_POINT(17);
   long spin_failed = myth_spin_lock_body(q->ilock);
   myth_sleep_queue_item_t tail = q->tail;
   if (tail) {
@@ -98,6 +99,7 @@ static inline long myth_sleep_queue_enq(myth_sleep_queue_t * q,
 }
 
 static inline myth_sleep_queue_item_t myth_sleep_queue_deq(myth_sleep_queue_t * q) {
+  MYTH_VERIF_POINT(17);
   myth_spin_lock_body(q->ilock);
   myth_sleep_queue_item_t head = q->head;
   if (head) {
